@@ -349,13 +349,28 @@ func runSpawn(a *Analyzer, r *Results) {
 						switch id {
 						case "github.com/orbs-network/govnr.Forever", "github.com/orbs-network/govnr.Once", "time.AfterFunc", "time.NewTimer", "time.NewTicker", "time.Tick", "time.After":
 							counts[id]++
-							allowed := map[string]string{
-								"github.com/orbs-network/govnr.Forever|(*leanhelix.MainLoop).Run":                                                       "worker loop, supervised, bound to the Run context",
-								"github.com/orbs-network/govnr.Forever|(*leanhelix.MainLoop).runMainLoop":                                               "main loop, supervised, bound to the Run context",
-								"time.AfterFunc|(*services/electiontrigger.TimerBasedElectionTrigger).RegisterOnElection": "election timer; stopped by Stop (Z7) and its send is cancellable (Z6)",
+							// who may create: the supervised loops are started by methods of MainLoop; the election timer is created by a
+							// method of the trigger that owns it and is stored in the field Stop() stops (any helper of that type may hold the call)
+							recv := ""
+							if f.Signature.Recv() != nil {
+								recv = typeShort(f.Signature.Recv().Type())
+							} else if f.Parent() != nil && f.Parent().Signature.Recv() != nil {
+								recv = typeShort(f.Parent().Signature.Recv().Type())
 							}
-							reason, ok := allowed[id+"|"+funcID(f)]
-							r.Check("Z5.creators", props("C16"), "goroutine / timer creators are called only at the inventoried sites", id+"|"+funcID(f), a.P.InstrPos(in), ok, "new goroutine/timer creator call", "W").Guards = []string{reason}
+							ok, reason := false, ""
+							switch {
+							case sc.Name() == "Forever" && strings.HasSuffix(recv, "leanhelix.MainLoop"):
+								ok, reason = true, "event loop, supervised, started by the MainLoop that owns the Run context"
+							case id == "time.AfterFunc" && strings.HasSuffix(recv, "TimerBasedElectionTrigger"):
+								stored := false
+								for _, ref := range *call.Referrers() {
+									if st, isSt := ref.(*ssa.Store); isSt && strings.HasSuffix(a.addrLoc(st.Addr), "TimerBasedElectionTrigger.timer") {
+										stored = true
+									}
+								}
+								ok, reason = stored, "election timer owned by the trigger: stopped by Stop (Z7), its send is cancellable (Z6)"
+							}
+							r.Check("Z5.creators", props("C16"), "goroutine / timer creators are called only by their owners: supervised loops by MainLoop methods, the election timer by a method of the trigger that stores it where Stop() finds it", id+"|"+recv, a.P.InstrPos(in), ok, "goroutine/timer creator call in "+funcID(f)+" outside the owning type (or the timer is not kept for Stop)", "W").Guards = []string{reason}
 						}
 					}
 				}
@@ -426,22 +441,33 @@ func runLocks(a *Analyzer, r *Results) {
 						continue
 					}
 					nAcc++
-					ok2 := locksIn(f, g)
+					// held: the function takes the lock itself, or it is a helper all of whose (transitive) static callers hold it
 					why := ""
-					if !ok2 {
-						// helper: all callers lock
-						callers := a.staticCallers(f)
-						ok2 = len(callers) > 0
+					var held func(h *ssa.Function, depth int, seen map[*ssa.Function]bool) bool
+					held = func(h *ssa.Function, depth int, seen map[*ssa.Function]bool) bool {
+						if locksIn(h, g) {
+							return true
+						}
+						if seen[h] || depth > 6 {
+							return false
+						}
+						seen[h] = true
+						callers := a.staticCallers(h)
+						if len(callers) == 0 {
+							why = "accessed in " + funcID(h) + " without taking the lock"
+							return false
+						}
 						for _, cf := range callers {
-							if !locksIn(cf, g) {
-								ok2 = false
-								why = "caller " + funcID(cf) + " does not hold the lock"
+							if !held(cf, depth+1, seen) {
+								if why == "" || depth == 0 {
+									why = "caller " + funcID(cf) + " does not hold the lock"
+								}
+								return false
 							}
 						}
-						if len(callers) == 0 {
-							why = "accessed in " + funcID(f) + " without taking the lock"
-						}
+						return true
 					}
+					ok2 := held(f, 0, map[*ssa.Function]bool{})
 					r.Check("L.lock", props("C13", "C15", "C12"), "every access to the mutex-guarded fields of State / ViewContexts / InMemoryStorage happens under the lock (Lock + deferred Unlock in the method, or in a helper whose callers all hold it)",
 						g.typ+"."+name+"|"+shortName(f), a.P.InstrPos(in), ok2, why, "L")
 				}
